@@ -83,10 +83,16 @@ def model_two_keys():
     return gs.DictInterface(lp)
 
 
+def model_cached():
+    """the same target with the linear predictor CACHED in the state: the likelihood reads state['eta'], which a proposal has to move along with beta"""
+    Yj = jnp.asarray(Yc, jnp.float32)
+    return gs.DictInterface(lambda s: jnp.sum(Yj * s["eta"] - jnp.exp(s["eta"])) - 0.5 * jnp.sum(s["beta"] ** 2) / TAU2)
+
+
 def kernel_case(col, kind, seed, n_tr):
     m = model()
     Xj = jnp.asarray(X, jnp.float32)
-    step = {"iwls": 0.9, "iwls_user": 0.9, "rw": 0.4, "mh": 0.4, "iwls_unsorted_keys": 0.9, "rw_unsorted_keys": 0.4}[kind]
+    step = {"iwls": 0.9, "iwls_user": 0.9, "rw": 0.4, "mh": 0.4, "mh_cached": 0.4, "iwls_unsorted_keys": 0.9, "rw_unsorted_keys": 0.4}[kind]
     two = kind.endswith("unsorted_keys")
     if kind == "iwls_unsorted_keys":
         m = model_two_keys()
@@ -108,11 +114,17 @@ def kernel_case(col, kind, seed, n_tr):
             # q(x'|x) = N(x + 0.5 step, step^2 I); log q(x|x') - log q(x'|x) = -(d+0.5s)^2/(2s^2) + (d-0.5s)^2/(2s^2) summed, d = x'-x
             d = new - st["beta"]
             corr = jnp.sum(((d - 0.5 * step_) ** 2 - (d + 0.5 * step_) ** 2) / (2 * step_**2))
+            if kind == "mh_cached":  # the realised proposal also carries the cached predictor (an entry beyond the kernel's position keys)
+                return gs.MHProposal({"beta": new, "eta": Xj @ new}, corr)
             return gs.MHProposal({"beta": new}, corr)
         k = gs.MHKernel(["beta"], prop, initial_step_size=step)
+        if kind == "mh_cached":
+            m = model_cached()
     k.set_model(m)
     key = jax.random.PRNGKey(seed)
     ms = {"beta": jnp.array([0.3, 0.6], jnp.float32)} if not two else {"a": jnp.float32(0.3), "b": jnp.float32(0.6)}
+    if kind == "mh_cached":
+        ms["eta"] = Xj @ ms["beta"]
     vec = (lambda st: np.asarray(st["beta"], np.float64)) if not two else (lambda st: np.array([float(st["a"]), float(st["b"])], np.float64))
     ks = k.init_state(key, ms)
     ep = EpochConfig(EpochType.POSTERIOR, n_tr, 1, None).to_state(1, 0)
@@ -204,7 +216,7 @@ def bounded(tier, seed):
     n_la = 40 if tier == "quick" else 1500
     la_cases(col, rng, n_la)
     n_tr = 25 if tier == "quick" else 300
-    for kind in ("iwls", "iwls_user", "rw", "mh", "iwls_unsorted_keys", "rw_unsorted_keys"):
+    for kind in ("iwls", "iwls_user", "rw", "mh", "mh_cached", "iwls_unsorted_keys", "rw_unsorted_keys"):
         kernel_case(col, kind, seed + 3, n_tr)
     special_corrections(col)
     for ui in (False, True):
@@ -216,7 +228,7 @@ def bounded(tier, seed):
         "evaluations": col.evals, "distinct_nontrivial": n_la + 4,
         "rule": (f"BOUNDED: iwls_utils on {n_la} seeded SPD precision matrices of dimension 1-4 against numpy closed forms (solve, log-density, sample identity "
                  f"L'(x-m)=z); {n_tr} real jitted transitions each of IWLS (autodiff Hessian), IWLS (user chol_info_fn = exact Fisher information, position dependent), RW and MH, IWLS and RW over two scalar keys listed in non-alphabetical order "
-                 "(asymmetric user proposal with its analytic correction) on a 2-parameter Poisson regression: for every accepted move the reported acceptance probability is "
+                 "(asymmetric user proposal with its analytic correction; and the same proposal on a model whose state caches the linear predictor, the proposal moving the cache along) on a 2-parameter Poisson regression: for every accepted move the reported acceptance probability is "
                  f"compared with the analytic MH ratio in float64 (tolerance 5e-3); covariance of 4000 realised IWLS proposals on a correlated bivariate Gaussian target (autodiff Hessian and user chol_info_fn) against F^-1 (statistical, tolerance 12 % of the largest entry); MH kernel with declared corrections -inf / +inf / NaN / +-0.7. seed={seed}"),
         "samples": [{"kernel": "iwls_user", "step_size": 0.9}],
         "exhaustive": False, "violations": col.violations,
